@@ -1,5 +1,8 @@
 -- Root of the `NostrRelay` library: models (import-free) and property theorems.
+import NostrRelay.Model.Bytes
 import NostrRelay.Model.RateLimiter
 import NostrRelay.Model.Notifier
+import NostrRelay.Model.KV
 import NostrRelay.Props.C18
 import NostrRelay.Props.C20
+import NostrRelay.Props.C10
